@@ -18,6 +18,9 @@ RULE = ('structured generators per model path (constant rate; no reversal; rever
         'rate zero / non-zero; budget reached before, at and after the reversal; steps before the reversal 0,1,k,=budget; '
         'exact boundary hits: accumulator solved so that the total lands on/next to a multiple of 2^31 at a chosen tick; '
         'symmetric reversals returning to the start value; near-double roots; legacy negative steps; maximal magnitudes; '
+        'very long moves (2^20..2^31 ticks, |accel| tiny, with and without reversal: accel*t^2, rate*t and the total beyond 2^53) '
+        'whose exact total at the reversal / last / return tick is solved to lie on or within a few binary64 spacings of a '
+        'multiple of 2^31; '
         'accumulator given/clear), an exhaustive small box, and random cases; a case is non-trivial when it is inside '
         'the property domain and not one of the (0,0,0) requests; distinct by input tuple; plus the "sitecov" stream: every '
         'comparison of the CURRENT calculate_lm source driven to lhs == rhs, +-1 and both outcomes (harness/sitecov.py)')
@@ -38,6 +41,7 @@ STAGED = []   # nothing staged: the numeric bridge (C03_bridge / C03_main / C03_
 P = 2 ** 31
 BF_CAP = 4000        # brute-force simulation on every case whose first tick is at most this
 BF_LONG = 200000     # ... and on a sample of longer ones up to this
+BF_HUGE = 6 * 10 ** 6  # ... and on one (quick) / three very long ones up to this (about 0.45 s per million ticks)
 
 
 # ----------------------------------------------------------------------------------------------
@@ -294,6 +298,122 @@ def gen_double_root(rng, out):
             out.append((n, rate, accel, a0))
 
 
+def half_ulp(x):
+    """half the spacing of binary64 numbers at magnitude |x|, rounded up to an integer (0 while every integer and half-integer is exact)"""
+    x = abs(x)
+    if x < 2 ** 52:
+        return 0
+    return 1 << max(0, x.bit_length() - 54)
+
+
+def gen_long_reversal(rng, out):
+    """VERY long reversing moves with a tiny |accel| (reversal after 2^20 .. 2^31 ticks, so accel*tau^2, rate*tau and the
+    total itself exceed 2^53 - beyond exact binary64), with the start accumulator SOLVED so that the exact total at a
+    structural tick (the reversal tick tau, tau+-1, the return tick ~2 tau, a random tick) lands on / within a few
+    binary64 spacings of a multiple of 2^31. Budgets around the steps taken at that tick and at the reversal.
+    Judged by the closed form + bisection (no tick-by-tick simulation is needed for millions of ticks)."""
+    m = rng.random()
+    if m < 0.45:
+        A = rng.randint(1, 511)            # accel*tau^2 can exceed 2^53 only below 2^9 (|rate| <= 2^31-1)
+    elif m < 0.6:
+        A = rng.choice([1, 1, 2, 3, 255, 257, 511, 509, rng.randint(1, 15)])
+    elif m < 0.85:
+        A = rng.randint(1, 2 ** 12)        # neighbouring class: rate*tau / the total beyond 2^53
+    else:
+        A = rng.randint(1, 2 ** 16)
+    if rng.random() < 0.6:
+        A |= 1                             # odd: the half-acceleration term is a proper half-integer
+    sg = rng.choice([1, -1])
+    accel = sg * A
+    tau_max = (P - 1) // A - 1
+    if tau_max < 4:
+        return
+    lo = min(tau_max, max(4, math.isqrt(2 ** 53 // A)))         # accel*tau^2 >= 2^53 from here on
+    mm = rng.random()
+    if mm < 0.55:
+        tau = rng.randint(lo, tau_max)
+    elif mm < 0.75:
+        tau = tau_max - rng.randint(0, 1000)
+    elif mm < 0.9:
+        tau = min(tau_max, lo + rng.randint(-1000, 1000))
+    else:
+        tau = rng.randint(min(tau_max, 2 ** 16), tau_max)
+    tau = max(4, min(tau, tau_max))
+    if rng.random() < 0.6:
+        tau |= 1
+        if tau > tau_max:
+            tau -= 2
+    delta = rng.choice([0, 0, 1, A - 1, A // 2, rng.randint(0, A - 1)]) % A
+    r0 = -(tau * accel + sg * delta)       # floor(-r0/accel) = tau
+    rate = r0 + tdiv2(accel)
+    if abs(r0 + accel) > P - 1 or abs(rate) > P - 1:
+        return
+    T = rng.choice([tau, tau, tau, tau, tau + 1, tau - 1, 2 * tau, 2 * tau + 1, 2 * tau - 1, rng.randint(1, 3 * tau)])
+    if abs(r0 + T * accel) > P - 1:
+        T = tau
+    base = Move(1, rate, accel, 0)
+    # spacing of binary64 at the magnitudes involved at tick T (half-acceleration term, rate term, total)
+    e = max(half_ulp(accel * T * T // 2), half_ulp(r0 * T), half_ulp(base.tot(T)))
+    off = rng.choice([0, 0, 0, 1, -1, 2, -2, e, -e, e + 1, -(e + 1), max(0, e - 1), -max(0, e - 1), 2 * e, -2 * e,
+                      rng.randint(-2 * e - 2, 2 * e + 2), rng.randint(-4 * e - 4, 4 * e + 4)])
+    side = rng.choice([0, 0, P - 1, P - 1, rng.choice([1, P - 2])])   # "on the boundary" seen from either direction
+    a0 = (side + off - base.tot(T)) % P
+    mv = Move(1, rate, accel, a0)
+    s = mv.taken(tau)
+    sT = mv.taken(T)
+    choices = [s, s, s + 1, s - 1, s + 2, s + rng.randint(1, 9), s + rng.randint(1, 200), s - rng.randint(1, 9), 2 * s, 2 * s + 1, 2 * s - 1,
+               sT, sT + 1, sT - 1, s + rng.randint(1, max(1, s)), rng.randint(1, max(1, s))]
+    choices = [b for b in choices if 1 <= b <= P]
+    for n in rng.sample(choices, min(len(choices), 3)):
+        out.append((n, rate, accel, a0))
+    if rng.random() < 0.15:
+        # the cleared twin (start value 0 / 2^31-1): no freedom to land on a boundary, kept for the magnitude class alone
+        out.append((rng.choice(choices), rate, accel, 'clear'))
+
+
+def gen_long_norev(rng, out):
+    """VERY long moves WITHOUT a reversal and with a tiny |accel| (2^20 .. 2^31 ticks: accel*T^2, rate*T and the total
+    exceed 2^53), the start accumulator solved so that the exact total at the chosen last tick T lands on / within a few
+    binary64 spacings of a multiple of 2^31; budget = steps taken at T, one more, one fewer."""
+    m = rng.random()
+    A = rng.randint(1, 511) if m < 0.6 else rng.choice([1, 1, 2, 3, rng.randint(1, 15), rng.randint(1, 2 ** 12)])
+    if rng.random() < 0.5:
+        A |= 1
+    sg = rng.choice([1, -1])
+    accel = sg * A
+    t_max = (P - 1) // A - 2
+    if t_max < 4:
+        return
+    lo = min(t_max, max(4, math.isqrt(2 ** 53 // A)))
+    T = rng.choice([rng.randint(lo, t_max), rng.randint(lo, t_max), t_max - rng.randint(0, 1000), rng.randint(min(t_max, 2 ** 16), t_max)])
+    if rng.random() < 0.5:
+        T |= 1
+    T = max(4, min(T, t_max))
+    # start rate of the same sign as accel (or zero), small enough for the rate at tick T to stay in range
+    room = P - 1 - A * (T + 1)
+    if room < 0:
+        return
+    rate = sg * rng.choice([0, 0, 1, rng.randint(0, min(room, 1000)), rng.randint(0, room), room])
+    r0 = rate - tdiv2(accel)
+    if max(abs(r0 + accel), abs(r0 + T * accel)) > P - 1:
+        return
+    base = Move(1, rate, accel, 0)
+    if base.tau is not None:
+        return
+    e = max(half_ulp(accel * T * T // 2), half_ulp(r0 * T), half_ulp(base.tot(T)))
+    off = rng.choice([0, 0, 0, 1, -1, 2, -2, e, -e, e + 1, -(e + 1), 2 * e, -2 * e, rng.randint(-2 * e - 2, 2 * e + 2),
+                      rng.randint(-4 * e - 4, 4 * e + 4)])
+    side = rng.choice([0, 0, P - 1, P - 1, rng.choice([1, P - 2])])
+    a0 = (side + off - base.tot(T)) % P
+    mv = Move(1, rate, accel, a0)
+    sT = mv.taken(T)
+    for n in {sT, sT + 1, max(1, sT - 1)}:
+        if 1 <= n <= P:
+            out.append((n, rate, accel, a0))
+    if rng.random() < 0.2:
+        out.append((max(1, sT), rate, accel, 'clear'))
+
+
 def gen_const(rng, out):
     rate = rng.choice([1, -1, 2, -2, 3, rng.randint(-50, 50), rng.randint(-10 ** 6, 10 ** 6), rng.randint(-(P - 1), P - 1),
                        P - 1, -(P - 1), P, -P, 2 ** 30, -2 ** 30]) or 7
@@ -464,7 +584,7 @@ def build_cases(ctx):
     ncorp = len(cases)
     cases += small_box()
     fams = [(gen_reversal, 2700), (gen_boundary, 2700), (gen_symmetric, 1000), (gen_double_root, 1500), (gen_const, 900),
-            (gen_norev, 900), (gen_maximal, 1200), (gen_trev, 1200), (gen_random, 4500)]
+            (gen_norev, 900), (gen_maximal, 1200), (gen_trev, 1200), (gen_long_reversal, 700), (gen_long_norev, 300), (gen_random, 4500)]
     for g, q in fams:
         tmp = []
         for _ in range(ctx.n(q)):
@@ -509,7 +629,7 @@ def run(ctx):
             seen.add(c)
             uniq.append(c)
     cases = uniq
-    st = {'bf_checked': 0, 'bf_long': 0, 'n_feed': 0, 'n_skipfeed': 0, 'valid': []}
+    st = {'bf_checked': 0, 'bf_long': 0, 'bf_huge': 0, 'n_feed': 0, 'n_skipfeed': 0, 'valid': []}
 
     def pipeline(cases, ncorp):
         """driver (Gen, model, Spec), oracle self-validation, real code, correspondence, oracle - for one list of cases"""
@@ -546,6 +666,14 @@ def run(ctx):
                     raise Infra(f'oracle inconsistency (closed form vs simulation) on {c}: {bf} vs {want}')
                 st['bf_checked'] += 1
                 st['bf_long'] += T > BF_CAP
+            elif (status == 'ok' and BF_LONG < T <= BF_HUGE and mv.tau is not None and T > mv.tau > BF_LONG
+                  and st['bf_huge'] < (1 if ctx.scale == 1 else 3)):
+                # the very long reversing class (millions of ticks, budget reached after the reversal): the closed form is checked against the simulation on a few of them too
+                bf = brute_first_tick(mv.n, mv.rate, mv.accel, mv.a0, T + 5)
+                if bf != ('ok',) + want:
+                    raise Infra(f'oracle inconsistency (closed form vs simulation, long move) on {c}: {bf} vs {want}')
+                st['bf_checked'] += 1
+                st['bf_huge'] += 1
             elif status.startswith('out-of-domain:rate') and T <= BF_CAP:
                 bf = brute_first_tick(mv.n, mv.rate, mv.accel, mv.a0, T + 5)
                 if bf[0] != 'range':
@@ -658,4 +786,4 @@ def run(ctx):
         if missing:
             raise Infra('model paths without any input: ' + ', '.join(missing))
     ctx.notes.append(f'oracle self-check: closed form/bisection = tick-by-tick simulation on {st["bf_checked"]} cases '
-                     f'({st["bf_long"]} with first tick > {BF_CAP}); move_dist_lt fed on {st["n_feed"]} cases ({st["n_skipfeed"]} skipped: duration > 2^32 is outside the domain of the timed-move predictor); corpus cases: {ncorp}')
+                     f'({st["bf_long"]} with first tick > {BF_CAP}, {st["bf_huge"]} with first tick > {BF_LONG}); move_dist_lt fed on {st["n_feed"]} cases ({st["n_skipfeed"]} skipped: duration > 2^32 is outside the domain of the timed-move predictor); corpus cases: {ncorp}')
